@@ -165,6 +165,7 @@ def write_config(r):
         'table_id': r.choice([None, None, 'tbl-1', 'таблица "x"/7']),
         'generated_by': r.choice(['vm-check', 'gén "q" 1.0', 'a\\b']),
         'date_variant': r.randrange(3),
+        'use_format_fs': r.random() < .08,
     }
     if cfg['writer'] == 'save_table_default':
         cfg['date'] = 'omitted'
@@ -223,6 +224,30 @@ def write(ctx, t, cfg, path):
     kw = {'compress': cfg['compress']}
     if date is not None:
         kw['creation_date'] = date
+    # a caller-supplied formatter for one text category (documented
+    # `format_fs` keyword); the matching parser undoes it on read.  What one
+    # call registers must not influence later writes in the same process.
+    cfg['custom_category'] = None
+    if cfg.get('use_format_fs') and cfg['writer'] != 'save_table_default':
+        text, other = set(), set()
+        for axis in ('observation', 'sample'):
+            md = t.metadata(axis=axis)
+            if md:
+                for k in md[0]:
+                    (text if all(isinstance(e.get(k), str) for e in md)
+                     else other).add(k)
+        cands = text - other - {'taxonomy', 'collapsed_ids'}
+        if cands:
+            cat = sorted(cands)[0]
+            cfg['custom_category'] = cat
+
+            def reversing_formatter(grp, header, md, compression):
+                from biom.table import general_formatter
+                general_formatter(grp, header,
+                                  [{header: m[header][::-1]} for m in md],
+                                  compression)
+            kw['format_fs'] = {cat: reversing_formatter}
+            ctx.count('format_fs_writes')
     t0 = datetime.datetime.now()
     if cfg['writer'] == 'to_hdf5':
         with h5py.File(path, 'w') as f:
@@ -351,7 +376,7 @@ def md_for_spec_compare(md):
     return out
 
 
-def check_conformance(ctx, path, src, desc, sig='C04'):
+def check_conformance(ctx, path, src, desc, sig='C04', custom=None):
     dec = h5spec.decode(path)
     if dec['problems']:
         raise Violation(sig + '/spec-violation', '%s; case=%r' %
@@ -374,9 +399,23 @@ def check_conformance(ctx, path, src, desc, sig='C04'):
                                          desc))
     for axis, got, exp in (('observation', dec['obs_md'], src.obs_md),
                            ('sample', dec['samp_md'], src.samp_md)):
+        if custom:
+            got = undo_custom(got, custom)
         if not snap.md_equal([snap.canon_md([g], 1)[0] for g in got],
                              md_for_spec_compare(exp)):
             raise Violation(sig + '/metadata', '%s metadata in file %r, '
                             'table %r; case=%r' % (axis, got, exp, desc))
     ctx.count('spec_decodes')
     return dec
+
+
+def undo_custom(md_list, cat):
+    """Reverse the text of category `cat` (written through the reversing
+    formatter and read without the matching parser)."""
+    out = []
+    for e in md_list:
+        e = dict(e)
+        if cat in e and isinstance(e[cat], str):
+            e[cat] = e[cat][::-1]
+        out.append(e)
+    return out
